@@ -271,7 +271,7 @@ def coordinator(check, tier, runs, budget_s, workers, vseed):
     conf = plans.TIERS[check]
     B = conf["batch"]
     if tier == "quick":
-        total = runs or conf["quick"]
+        total = runs or plans.quick_runs(check)
         budget_s = budget_s or 3600
     else:
         total = runs or conf["thorough_max"]
